@@ -546,7 +546,7 @@ def gen_landmarks(rng, X, k=5):
 def run(ctx, res):
     rng = ctx["rng"]
     quick = ctx["tier"] == "quick"
-    budget = ctx["budget"] or (60 if quick else 540)
+    budget = ctx["budget"] or (95 if quick else 600)
     t_end = time.time() + budget
     mellon()
     # --- exact part: wiring for every optimiser name x previous opt_state
@@ -557,9 +557,11 @@ def run(ctx, res):
         mm = int(rng.integers(1, 9))
         run_case(ctx, res, {"op": "advistd", "mean": rng.normal(size=mm) * 3, "log_std": rng.uniform(-30, 5, size=mm)})
     # --- Adam traces, every n_iter of the property's list
-    for n_iter in (1, 2, 7, 50):
+    # (the property quantifies over n_iter in 1..200: the ends, the default 100, and values on both sides of it that
+    #  are not multiples of anything a blocked / chunked loop would use; one drawn per run on top)
+    for n_iter in (1, 2, 7, 50, 100, 101, 130, 199, 200, int(rng.integers(3, 200))):
         run_case(ctx, res, {"op": "adamtrace", "X": gen_X(rng, SHAPES[1]), "n_iter": n_iter,
-                            "lr": float(rng.choice([0.1, 0.03, 0.5])), "jit": False, "zoff": 0.0})
+                            "lr": float(rng.choice([0.1, 0.03, 0.5])), "jit": bool(n_iter in (101, 200)), "zoff": 0.0})
     run_case(ctx, res, {"op": "adamtrace", "X": gen_X(rng, SHAPES[1]), "n_iter": 7, "lr": 0.1, "jit": True, "zoff": 0.3,
                         "zseed": int(rng.integers(1 << 30))})
     # --- fits with each optimiser; ADVI for every n_iter
@@ -567,7 +569,7 @@ def run(ctx, res):
         run_case(ctx, res, {"op": "fit", "X": gen_X(rng), "optimizer": opt, "n_iter": int(rng.choice([1, 2, 7, 50]))})
     Xl = gen_X(rng, SHAPES[2])
     run_case(ctx, res, {"op": "fit", "X": Xl, "optimizer": "L-BFGS-B", "landmarks": gen_landmarks(rng, Xl)})
-    for n_iter in ((1, 7) if quick else (1, 2, 7, 50)):
+    for n_iter in ((1, 7, 130) if quick else (1, 2, 7, 50, 100, 130, 199, 200)):
         run_case(ctx, res, {"op": "advi", "X": gen_X(rng, SHAPES[1]), "n_iter": n_iter})
     # --- reproducibility
     Xq = rng.normal(size=(5, 2))
